@@ -45,7 +45,7 @@ Lemma analyze_deps_kind tg s o d tg' :
   analyze_fn_deps tg s o = Ok (d, tg') -> same_kind d (deps_kind (no_deps_value o) s).
 Proof.
   unfold analyze_fn_deps, deps_kind. destruct (no_deps_value o).
-  - intros H. injection H as <- _. exact I.
+  - destruct (p_items (s_inputs s)) as [|[x r m c|x p ty] rest]; intros H; try discriminate H; injection H as <- _; exact I.
   - destruct (p_items (s_inputs s)) as [|[x r m c|x p ty] rest]; try discriminate. apply extract_kind.
 Qed.
 
